@@ -411,12 +411,7 @@ func (x *SExec) apply(i int, op SOp) *Fail {
 		if n < 0 {
 			return nil
 		}
-		src := -1
-		for j, m := range x.Mode {
-			if m == types.RW {
-				src = j
-			}
-		}
+		src := x.rebuildSource()
 		if src < 0 {
 			return nil
 		}
@@ -677,12 +672,7 @@ func (x *SExec) apply(i int, op SOp) *Fail {
 		if n < 0 {
 			return nil
 		}
-		src := -1
-		for j, m := range x.Mode {
-			if m == types.RW {
-				src = j
-			}
-		}
+		src := x.rebuildSource()
 		if src < 0 || st.Nodes[src].S.Replica() == nil || st.Nodes[n].S.Replica() == nil {
 			return nil
 		}
@@ -1798,12 +1788,7 @@ func (x *SExec) doRebuild(i int, op SOp) *Fail {
 	if dst < 0 {
 		return nil
 	}
-	src := -1
-	for j, m := range x.Mode {
-		if m == types.RW {
-			src = j
-		}
-	}
+	src := x.rebuildSource()
 	if src < 0 {
 		return nil
 	}
@@ -2123,12 +2108,7 @@ func (x *SExec) doSysRebuild(i int, op SOp) *Fail {
 			node.S.Close()
 		}
 	}
-	src := -1
-	for j, m := range x.Mode {
-		if m == types.RW {
-			src = j
-		}
-	}
+	src := x.rebuildSource()
 	punchBefore := types.ShouldPunchHoles
 	if op.Str == "portbusy" {
 		// some of the ports the target's sync agent hands to its ssync receivers are
@@ -3032,4 +3012,21 @@ func longDeadlineFor(op SOp) func() {
 		}
 	}
 	return func() {}
+}
+
+// rebuildSource: the RW replica a rebuild copies from and is verified against -
+// the one the controller picks (the first RW entry of its list,
+// getCurrentAndRWReplica), provided the model agrees that it is RW.
+func (x *SExec) rebuildSource() int {
+	for _, r := range x.St.C.VerifState().Replicas {
+		if r.Mode != types.RW {
+			continue
+		}
+		for j, nd := range x.St.Nodes {
+			if nd.Addr == r.Address && x.Mode[j] == types.RW {
+				return j
+			}
+		}
+	}
+	return -1
 }
